@@ -860,6 +860,15 @@ fn gen_c10(tier: &Tier, rng: &mut Rng, _w: usize, nw: usize, out: &mut Vec<Case>
             cs.push(if use_read { 'r' } else { *rng.pick(&['n', 'n', 'N']) });
             cs.push(*rng.pick(&['b', 'f', 'p']));
         }
+        if kind == "io" {
+            // how the source reports the end of input: Ok(0) forever, or first an explicit end-of-input error
+            match rng.below(4) {
+                0 => events.push("E".into()),
+                1 => events.push("Ee".into()),
+                2 => events.push("Ex".into()),
+                _ => {}
+            }
+        }
         out.push(
             Case::new("e2e", vec![format!("sml {} {} {} {}", kind, cap_tok(cap), cs, events.join(" "))])
                 .with_aux(vec![expect.join("#"), tail.len().to_string()]),
